@@ -21,7 +21,9 @@ EXPLANATION = (
     "context (dataEscaper(root) in the text branch, escapedCDATA / escapedComment of root.data in theirs) / the numeric character reference - raw root, root.data or attribute "
     "values never reach write(); attribute values recurse only through writeWithAttributeEscaping(write) + attributeEscapingDoneOutside, children reset to escapeForContent, "
     "no other step overrides the escaper, keepGoing forwards its context; buffered writes are delivered in order; between escaper and sink nothing rewrites the bytes: the writer flatten() hands down is the caller's writer or a "
-    "forwarder of its unchanged argument (sink/output-not-rewritten); a slot frame answers by key PRESENCE only - the guards of `return <frame value>` never mention the value "
+    "forwarder of its unchanged argument (sink/output-not-rewritten); an escaper whose guarantee depends on context (classified from its own source: it rewrites a pattern longer than one byte or looks at the start / end of "
+    "its argument - escapedCDATA, escapedComment) is applied to the node's WHOLE data, never to a slice / chunk / loop piece of it (sink/whole-data-escaper; byte-wise escapers may be "
+    "applied piecewise); a slot frame answers by key PRESENCE only - the guards of `return <frame value>` never mention the value "
     "(slot/decision-by-presence); the frame a Tag pushes is popped on every path leaving its branch (slot/frame-popped; F28c, fixed: it was not - the revert is a mutant).  FINITE-EXHAUSTIVE: "
     "_getSlotValue over stacks of 0..3 frames x {None, empty, other key, key with a truthy / each falsy value} x default {None, falsy, truthy}: the innermost frame holding the key "
     "answers, whatever the value (slot/nearest-frame-wins); content and attribute escapers on all "
@@ -37,7 +39,7 @@ EXPLANATION = (
     "be consumed as exactly one comment by an HTML5 comment tokenizer (F28, fixed: data starting with '>' or '->' or containing '--!>' ended the comment "
     "early; the revert is a mutant) and be well-formed XML comment data - it is not (known finding F28b: '--' is not well-formed XML). The tree family is flattened through flatten() itself (the public writer chain) and includes every hostile value - the empty ones too - as a "
     "slot fill under an outer fill and a default, sibling rows with their own fills, and comment / CDATA / text data with a control character inside '-->', '--!>', ']]>' or before a "
-    "leading '>' (judged with the tokenizer oracles).  Not decided: structural equality after re-parsing whole documents, renderers' own output."
+    "leading '>' (judged with the tokenizer oracles), and ~128 KiB data strings in which a terminator straddles every power-of-two offset 2**10..2**17.  Not decided: structural equality after re-parsing whole documents, renderers' own output."
 )
 RULE_KINDS = {
     "sink/output-not-rewritten": "structural", "sink/whole-data-escaper": "structural", "flatten/terminators-across-chunk-boundaries": "bounded", "slot/decision-by-presence": "structural", "slot/frame-popped": "structural", "slot/frame-scope": "bounded", "slot/nearest-frame-wins": "finite-exhaustive", "flatten/terminators-with-control-characters": "bounded",
@@ -1237,6 +1239,8 @@ def _escaper_comment(ctx):
 
 
 MUTANTS = [
+    Mutant("comment-escaped-in-two-halves", FL, "        write(escapedComment(root.data))\n", "        half = len(root.data) // 2\n        write(escapedComment(root.data[:half]))\n        write(escapedComment(root.data[half:]))\n", expect_rule="sink/whole-data-escaper"),
+    Mutant("cdata-escaped-line-by-line", FL, "        write(escapedCDATA(root.data))\n", "        for line in root.data.splitlines(True):\n            write(escapedCDATA(line))\n", expect_rule="sink/whole-data-escaper"),
     Mutant("revert-F28c-tag-frame-never-popped", FL, "            yield keepGoing(root.children)\n            slotData.pop()\n            return\n", "            yield keepGoing(root.children)\n            return\n",
            more=[(FL, "            write(b\" />\")\n        # The slots filled on this tag are in scope for its own attributes and\n        # children only.\n        slotData.pop()\n", "            write(b\" />\")\n")],
            expect_rule="slot/frame-"),
@@ -1275,6 +1279,8 @@ MUTANTS = [
     Mutant("comment-close-before-data", FL, "        write(b\"<!--\")\n        write(escapedComment(root.data))\n        write(b\"-->\")", "        write(b\"<!--\")\n        write(b\"-->\")\n        write(escapedComment(root.data))"),
 ]
 SILENT = [
+    Silent("text-escaped-in-two-pieces", FL, "        write(dataEscaper(root))\n", "        for part in (root[:4096], root[4096:]):\n            write(dataEscaper(part))\n"),
+    Silent("cdata-data-through-a-local-name", FL, "        write(escapedCDATA(root.data))\n", "        wholeData = root.data\n        write(escapedCDATA(wholeData))\n"),
     Silent("tag-frame-popped-in-both-arms", FL, "            write(b\" />\")\n        # The slots filled on this tag are in scope for its own attributes and\n        # children only.\n        slotData.pop()\n",
            "            write(b\" />\")\n            slotData.pop()\n", more=[(FL, "            write(b\"</\" + tagName + b\">\")\n", "            write(b\"</\" + tagName + b\">\")\n            slotData.pop()\n")]),
     Silent("writer-passed-through-a-plain-forwarder", FL, "    return ensureDeferred(_flattenTree(request, root, write))\n",
